@@ -14,14 +14,16 @@ Definition isR e := match e with EReset => true | _ => false end.
 Lemma cnt_snoc p tr e : cnt p (tr ++ [e]) = cnt p tr + (if p e then 1 else 0).
 Proof. unfold cnt. rewrite filter_app, app_length. cbn. destruct (p e); reflexivity. Qed.
 
+Definition isS e := match e with ESubCall => true | _ => false end.
+
 (** counts of constructor calls / disconnects / resets determined by the phase *)
 Definition disc_counts (ph : phase) (pre : list ev) : Prop :=
   let f := cnt isF pre in let d := cnt isD pre in let r := cnt isR pre in
+  let n := cnt isS pre in
   match ph with
-  | PStart k => f = k /\ d = k /\ r = k
-  | PAtt k => f = S k /\ d = k /\ r = k
-  | PDisc k => f = S k /\ d = S k /\ r = k
-  | PEnd => d <= f <= S d /\ f <= S r /\ r <= d
+  | PStart k => f = k /\ d = k /\ r <= k /\ k <= r + n
+  | PAtt k => f = S k /\ d = k /\ r <= k /\ k <= r + n
+  | PDisc k | PEnd k => f = S k /\ d = S k /\ r <= k /\ k <= r + n
   | PBad => False
   end.
 
@@ -41,13 +43,14 @@ Qed.
 
 (** One disconnect per attempt and a reset before every retry, read off the
     monitor: at every moment of an accepted recording of a ReconnectClient,
-    #disconnect <= #attempts <= #disconnect + 1, #attempts <= #reset + 1 and
-    #reset <= #disconnect. *)
+    #disconnect <= #attempts <= #disconnect + 1, #reset <= #disconnect, and
+    #attempts <= #reset + #Subscribe calls + 1 (every attempt but the first of
+    a call is preceded by its own reset). *)
 Theorem k_disc_sound tr :
   k_disc true tr = None ->
   forall pre suf, tr = pre ++ suf ->
     cnt isD pre <= cnt isF pre <= S (cnt isD pre) /\
-    cnt isF pre <= S (cnt isR pre) /\ cnt isR pre <= cnt isD pre.
+    cnt isF pre <= S (cnt isR pre + cnt isS pre) /\ cnt isR pre <= cnt isD pre.
 Proof.
   unfold k_disc.
   assert (G : forall tr0 i m done,
@@ -64,7 +67,8 @@ Proof.
         replace (done ++ e :: pre) with ((done ++ [e]) ++ pre) by (rewrite <- app_assoc; reflexivity).
         eapply IH; [|exact Hm|exact E]. apply disc_counts_step; auto. }
   intros H pre suf E.
-  destruct (G tr 0 (false, PStart 0) [] (conj eq_refl (conj eq_refl eq_refl)) H pre suf E) as [ph Hp].
+  assert (D0 : disc_counts (snd (false, PStart 0)) []) by (cbn; lia).
+  destruct (G tr 0 (false, PStart 0) [] D0 H pre suf E) as [ph Hp].
   cbn in Hp. unfold disc_counts in Hp. destruct ph; try lia; try (destruct Hp).
 Qed.
 
@@ -146,12 +150,11 @@ Proof. split; [vm_compute; discriminate|vm_compute; reflexivity]. Qed.
 Example ex_base_close :
   exists s, reach false (sc_of ex_l) s /\ close_succeeded s.
 Proof.
-  destruct (find (fun s => c_ok s && match c_pc s with CFin => true | _ => false end)
+  destruct (find (fun s => c_done s)
               (ex_states false ex_l [ESubCall; EFactory 0; EImplSub 0; ERecv 0 0; ECloseCall;
                                      EImplClose 0; ECloseRet true])) as [s|] eqn:E;
     [|vm_compute in E; discriminate].
-  apply find_reach in E. destruct E as [Hr Hf]. exists s. split; [exact Hr|].
-  apply andb_prop in Hf. destruct Hf as [H1 H2]. split; [exact H1|]. destruct (c_pc s); try discriminate; exact Logic.I.
+  apply find_reach in E. destruct E as [Hr Hf]. exists s. split; [exact Hr|]. left. exact Hf.
 Qed.
 
 (** [exactly_one_cancel]: both orders occur -- Close before initDone (initDone
@@ -272,3 +275,78 @@ Proof.
   destruct Gr as [t' Gr]; injection Gr as -> _; try reflexivity;
   apply negb_false_iff in Hb; apply internal_ev_dec_bl in Hb; congruence.
 Qed.
+
+(** * [p.closed] is a latch: every Subscribe after a returned Close ends at once *)
+
+(** the subscriber's remaining steps on the path a closed ReconnectClient takes *)
+Definition mq (s : st) : nat :=
+  match s_pc s with
+  | SFin => 0 | SRet _ => 1 | SDone => 2 | SCtxChk => 3 | SDisc => 4
+  | SFacChk => 5 | SFactory => 6 | SInit => 7 | _ => 8
+  end.
+
+Lemma sticky_sstep sc s l s1 :
+  inv3 s -> inv5 s -> c_done s = true ->
+  In (l, s1) (sstep true sc s) -> is_call l = false ->
+  mq s1 < mq s /\ (forall e, l = Some e -> is_handler e = false).
+Proof.
+  intros I3 I5 Hd H Hn.
+  dst s; unfold inv3, inv5, mq, sstep, end_attempt, do_cancel, cancelled in *; cbn in *; subst.
+  destruct I5 as [_ [Hc [Hl _]]]. specialize (Hc eq_refl). subst. specialize (Hl eq_refl).
+  destruct I3 as [_ I3]. specialize (I3 eq_refl).
+  destruct spc0; cbn in *;
+    try (destruct (Hl eq_refl) as [Z _]; discriminate);
+    crunch H; cbn in *; try discriminate;
+    try (split; [lia|intros e [= <-]; reflexivity]);
+    try (split; [lia|intros e [=]]).
+  all: destruct I3 as [->|[_ [Z|Z]]]; try discriminate; cbn in *.
+  all: rewrite ?andb_false_r in *; try discriminate.
+Qed.
+
+(** Once some Close call on a ReconnectClient has returned: this stays so and
+    [p.closed] stays set whatever is called afterwards; the application is
+    handed nothing any more; and every later Subscribe call returns after at
+    most 7 steps of its own (initDone, one constructor call that fails on the
+    cancelled context, disconnect, context check, return) without a backoff
+    sleep -- for every script, schedule and sequence of further calls. *)
+Theorem closed_is_sticky sc s :
+  reach true sc s -> c_done s = true ->
+  r_closed s = true /\ emits (s_pc s) = false /\ mq s <= 8 /\
+  (forall l s1, In (l, s1) (step true sc s) -> c_done s1 = true /\ r_closed s1 = true) /\
+  (forall l s1, In (l, s1) (sstep true sc s) -> is_call l = false ->
+     mq s1 < mq s /\ (forall e, l = Some e -> is_handler e = false)).
+Proof.
+  intros Hr Hd. pose proof (inv5_reach _ _ Hr) as I5. pose proof (inv3_reach _ _ Hr) as I3.
+  assert (Hc : r_closed s = true) by (apply (proj1 (proj2 I5)); exact Hd).
+  split; [exact Hc|]. split; [apply rc_closed_quiet; assumption|].
+  split; [unfold mq; destruct (s_pc s); lia|]. split.
+  - intros l s1 H. destruct (closed_latch _ _ _ _ H) as [L1 L2]. auto.
+  - intros l s1 H Hn. eapply sticky_sstep; eauto.
+Qed.
+
+(** a second Subscribe after Subscribe/Close, and a third one: the recording is
+    accepted, every call returns, nothing is delivered after the Close *)
+Example ex_sequence_of_calls :
+  check_case (true, ex_l,
+              ex_tr ++ [EImplClose 1; EImplClose 1; EDisc; ESubRet RCanceled; ECloseRet true;
+                        ESubCall; EFactory 2; EDisc; ESubRet RCanceled;
+                        ECloseCall; EImplClose 1; ECloseRet true;
+                        ESubCall; EFactory 3; EDisc; ESubRet RCanceled]) = [].
+Proof. vm_compute. reflexivity. Qed.
+
+Example ex_sticky_state :
+  exists s, reach true (sc_of ex_l) s /\ c_done s = true /\ s_pc s = SInit.
+Proof.
+  destruct (find (fun s => c_done s && match s_pc s with SInit => true | _ => false end)
+              (ex_states true ex_l
+                 (ex_tr ++ [EImplClose 1; EImplClose 1; EDisc; ESubRet RCanceled; ECloseRet true; ESubCall])))
+    as [s|] eqn:E; [|vm_compute in E; discriminate].
+  apply find_reach in E. destruct E as [Hr Hf]. exists s. split; [exact Hr|].
+  apply andb_prop in Hf. destruct Hf as [H1 H2]. split; [exact H1|]. destruct (s_pc s); try discriminate. reflexivity.
+Qed.
+
+(** the monitors reject a Subscribe that delivers, or does not return, after Close *)
+Example ex_k_after_rejects_delivery_by_later_subscribe :
+  k_after true [ESubCall; EFactory 0; EDisc; ECloseCall; ESubRet RCanceled; ECloseRet false;
+                ESubCall; EFactory 1; EImplSub 1; ERecv 1 0; EConn] = Some 10.
+Proof. vm_compute. reflexivity. Qed.
